@@ -97,6 +97,14 @@ def run_rule(run, rule_id, rels, _control=False):
             for c, l, r in pairs:
                 dl, dr = dotted(l) or src(l), dotted(r) or src(r)
                 n += 1
+                # a projection (str(), repr(), hash(), .__name__ ...) of a field identifies less than the field does:
+                # two different parameters with the same projection would share one cached type
+                proj = [x for x in (l, r) if (isinstance(x, ast.Call) and any(dotted(a) and "." in dotted(a) and dotted(a).split(".")[0] in ("self", o) for a in x.args))
+                        or (isinstance(x, ast.Attribute) and x.attr in ("__name__", "__qualname__", "__class__") and isinstance(x.value, ast.Attribute))]
+                if proj:
+                    run.ob(False, f"{cname}.__eq__", file=rel, line=c.lineno, detail=f"projection {src(proj[0])}", expected="fields compared themselves (identity / equality of the parameter objects)",
+                           found=f"`{src(c)}` compares a projection of the field: distinct parameters with equal {src(proj[0].func) if isinstance(proj[0], ast.Call) else proj[0].attr} are merged")
+                    continue
                 if dl == dr:
                     run.ob(False, f"{cname}.__eq__", file=rel, line=c.lineno, detail=f"{dl} vs {dr}", expected=f"self.<attr> == {o}.<attr>", found=f"`{src(c)}` compares an expression with itself (always true)")
                     continue
